@@ -132,7 +132,7 @@ impl TransportVisitor for V {
         for step in 0..self.depth {
             co.borrow_mut().spins = 0;
             let avail = sh.delivered.get() - sh.returned.get();
-            let op = choose(14, "console operation");
+            let op = choose(16, "console operation");
             match op {
                 0..=2 => {
                     let ok = device_fill(&co, &sh, FILL_LENS[op]);
@@ -230,6 +230,27 @@ impl TransportVisitor for V {
                     let tx = sh.tx.borrow();
                     if !matches!(r, Ok(Ok(()))) || tx.len() != before + 1 || tx.last().unwrap() != &vec![0x41 + step as u8] {
                         viol("send", format!("send({:#x}) -> {:?}; transmit queue saw {:?}", 0x41 + step as u8, r, &tx[before..]));
+                    }
+                }
+                14 => {
+                    // embedded-io Write: all bytes in one chain, length returned; empty write is a no-op.
+                    let before = sh.tx.borrow().len();
+                    let data = [0x30 + step as u8, 0x31];
+                    let r = crate::util::catch(|| embedded_io::Write::write(&mut con, &data));
+                    let r0 = crate::util::catch(|| embedded_io::Write::write(&mut con, &[]));
+                    tag("io-write");
+                    let tx = sh.tx.borrow();
+                    if !matches!(r, Ok(Ok(2))) || !matches!(r0, Ok(Ok(0))) || tx.len() != before + 1 || tx.last().unwrap()[..] != data {
+                        viol("io-write", format!("Write::write({:?}) -> {:?}, empty write -> {:?}; transmit queue saw {:?}", data, r, r0, &tx[before..]));
+                    }
+                }
+                15 => {
+                    let before = sh.tx.borrow().len();
+                    let r = crate::util::catch(|| core::fmt::Write::write_str(&mut con, "hi\u{e9}"));
+                    tag("fmt-write_str");
+                    let tx = sh.tx.borrow();
+                    if !matches!(r, Ok(Ok(()))) || tx.len() != before + 1 || tx.last().unwrap()[..] != *"hi\u{e9}".as_bytes() {
+                        viol("write_str", format!("write_str -> {:?}; transmit queue saw {:?}", r, &tx[before..]));
                     }
                 }
                 _ => {
